@@ -535,3 +535,146 @@ def run_load_faults(ctx):
 
 def _ilst_children(data):
     return []
+
+
+# ---------------------------------------------------------------------------------------------------------------------
+# C01 (a) / C07: mutagen's own reader of the ilst children (`MP4Tags.load`, `__parse_data`, the typed parsers, `_failed_atoms`)
+# against lean/MutagenModel/Model/Container/Mp4Reader.lean (`loadTags`)
+
+def _data(payload, flags=1, version=0, name=b"data", size=None, locale=0):
+    body = struct.pack(">II", (version << 24) | flags, locale) + payload
+    return struct.pack(">I4s", (len(body) + 8) if size is None else size, name) + body
+
+
+def gen_ilst_child(rng):
+    """one child of ilst: (bytes, label)"""
+    kind = rng.choice(["text", "text", "unknown", "pair", "int", "bool", "covr", "gnre", "free", "free", "raw"])
+    dmg = rng.random() < 0.3
+    wide = rng.random() < 0.04
+    if kind == "text":
+        name = rng.choice([b"\xa9nam", b"\xa9ART", b"aART", b"desc", b"\xa9gen", b"purl", b"tvsh"])
+        datas = [_data(rng.choice([b"", b"abc", "h\xe9llo 世".encode("utf-8"), b"\xff\xfe", b"\xed\xa0\x80", b"x" * 40]),
+                       flags=rng.choice([1, 1, 1, 0, 2, 21]), version=rng.choice([0, 0, 0, 1])) for _ in range(rng.choice([0, 1, 1, 2, 3]))]
+    elif kind == "unknown":
+        name = rng.choice([b"xyzw", b"\xa9foo", b"AAAA", b"stik"[::-1]])
+        datas = [_data(rng.choice([b"v", b"", b"\xc3\x28"]), flags=rng.choice([1, 1, 0, 13])) for _ in range(rng.choice([0, 1, 2]))]
+    elif kind == "pair":
+        name = rng.choice([b"trkn", b"disk"])
+        datas = [_data(rng.choice([struct.pack(">4H", 0, 3, 9, 0), struct.pack(">3H", 0, 1, 2), b"\0\0\0\1\0", b"", b"\0" * 7 + b"\5" * 3]),
+                       flags=rng.choice([0, 0, 21])) for _ in range(rng.choice([0, 1, 1, 2]))]
+    elif kind == "int":
+        name = rng.choice([b"tmpo", b"plID", b"stik", b"tves", b"\xa9mvi", b"rtng"])
+        datas = [_data(rng.choice([b"\x7f", b"\x80", b"\x00\x80", b"\xff\xff\xfe", b"\x80\0\0\0", b"\0" * 7 + b"\1", b"\xff" * 8, b"", b"\1" * 5]),
+                       flags=rng.choice([21, 21, 0, 1]), version=rng.choice([0, 0, 0, 2])) for _ in range(rng.choice([0, 1, 1, 2]))]
+    elif kind == "bool":
+        name = rng.choice([b"cpil", b"pgap", b"pcst"])
+        datas = [_data(rng.choice([b"\1", b"\0", b"\7", b"\0\1", b""]), flags=rng.choice([21, 0])) for _ in range(rng.choice([0, 1, 1, 2, 3]))]
+    elif kind == "covr":
+        name = b"covr"
+        datas = []
+        for _ in range(rng.choice([0, 1, 2, 3])):
+            r = rng.random()
+            if r < 0.2:
+                datas.append(struct.pack(">I4s", 12, b"name") + b"abcd")
+            elif r < 0.3:
+                datas.append(_data(b"img", flags=13, name=b"dat!"))
+            else:
+                datas.append(_data(rng.choice([b"\x89PNG....", b"\xff\xd8jpeg", b""]), flags=rng.choice([13, 14, 0, 27, 12]), version=rng.choice([0, 0, 1])))
+    elif kind == "gnre":
+        name = b"gnre"
+        datas = [_data(struct.pack(">h", rng.choice([1, 2, 17, 80, 192, 193, 0, -1, -192, -193, 3000])) if rng.random() < 0.85 else rng.choice([b"\1", b"\0\0\1"]),
+                       flags=0) for _ in range(rng.choice([0, 1, 1, 2]))]
+    elif kind == "free":
+        name = b"----"
+        mean = rng.choice([b"com.apple.iTunes", b"", b"m"])
+        nm = rng.choice([b"MusicBrainz Track Id", b"x", b"", b"a:b"])
+        parts = [struct.pack(">I4sI", len(mean) + 12, b"mean", 0) + mean, struct.pack(">I4sI", len(nm) + 12, b"name", 0) + nm]
+        if rng.random() < 0.12:
+            parts = parts[:rng.choice([0, 1])]
+        datas = parts + [_data(rng.choice([b"value", b"", b"\0\1\2"]), flags=rng.choice([1, 1, 0, 21]), version=rng.choice([0, 0, 3]),
+                               name=rng.choice([b"data"] * 6 + [b"datb"])) for _ in range(rng.choice([0, 1, 1, 2]))]
+    else:
+        name = rng.choice([b"\xa9nam", b"trkn", b"covr", b"----", b"tmpo", b"cpil", b"gnre", b"qqqq"])
+        datas = [bytes(rng.randrange(256) for _ in range(rng.choice([0, 3, 8, 11, 12, 16, 20])))]
+    body = b"".join(datas)
+    if dmg and body:
+        r = rng.random()
+        if r < 0.3:
+            body = body[:rng.randrange(len(body))]
+        elif r < 0.6 and len(body) >= 4:
+            k = rng.choice([0] + [i for i in range(0, len(body) - 3, 4)][:3])
+            v = rng.choice([0, 1, 8, 15, 16, 17, len(body), len(body) + 5, 0xFFFFFFFF])
+            body = body[:k] + struct.pack(">I", v) + body[k + 4:]
+        else:
+            body = body + rng.choice([b"\0", b"\0\0\0\x10data", b"\0\0\0\0\0\0\0\0\0\0\0\0"])
+    return box(name, body, wide=wide), "%s%s%s" % (kind, ":dmg" if dmg else "", ":wide" if wide else "")
+
+
+def _canon_real(tags):
+    from mutagen.mp4 import MP4FreeForm, MP4Cover
+    items = []
+    for key, value in tags.items():
+        k = key.encode("latin-1").hex()
+        if isinstance(value, bool):
+            items.append("%s=B:%d" % (k, int(value))); continue
+        vs = []
+        kind = "E"
+        for v in value:
+            if isinstance(v, MP4FreeForm):
+                kind = "F"; vs.append("%d.%d.%s" % (v.dataformat, v.version, hx(bytes(v))))
+            elif isinstance(v, MP4Cover):
+                kind = "C"; vs.append("%d.%s" % (v.imageformat, hx(bytes(v))))
+            elif isinstance(v, str):
+                kind = "T"; vs.append(hx(v.encode("utf-8")))
+            elif isinstance(v, tuple):
+                kind = "P"; vs.append("%d/%d" % v)
+            else:
+                kind = "I"; vs.append("%d" % v)
+        items.append("%s=%s:%s" % (k, kind, "|".join(vs)))
+    failed = ["%s=%s" % (k.encode("latin-1").hex(), "|".join(hx(d) for d in ds)) for k, ds in tags._failed_atoms.items()]
+    return "items=%s failed=%s" % (";".join(items) or "-", ";".join(failed) or "-")
+
+
+def _canon_model(ans):
+    """empty value lists carry no kind in Python: `k=T:` -> `k=E:`"""
+    import re
+    return re.sub(r"=([TFPIC]):(?=;| )", "=E:", ans)
+
+
+def run_reader(ctx):
+    """generated ilst contents (well-formed and damaged children of every kind of the `__atoms` table, unknown names, 64-bit
+    headers): the real `MP4(BytesIO(data))` — tags in insertion order with their Python types, `_failed_atoms` — against the
+    model's reader.  Returns the number of comparisons."""
+    from mutagen.mp4 import MP4
+    from mutagen import MutagenError
+    rng = ctx.rng
+    reqs = []
+    for i in range(ctx.budget(700, 8000)):
+        kids = [gen_ilst_child(rng) for _ in range(rng.choice([1, 1, 2, 3, 5]))]
+        ilst = box(b"ilst", b"".join(k[0] for k in kids))
+        data = box(b"moov", box(b"udta", box(b"meta", b"\0\0\0\0" + ilst)))
+        case = {"children": [k[1] for k in kids], "data": hx(data)}
+        k, m = timed(lambda: MP4(io.BytesIO(data)), 20)
+        if k == "hang":
+            ctx.violation("mp4file:reader:hang", "did not finish", case); continue
+        if k == "exc":
+            impl = classify(m).replace(":", " ")
+            if not isinstance(m, MutagenError):
+                ctx.violation("mp4file:reader:%s" % type(m).__name__, "MP4() raised %r" % (m,), case)
+        else:
+            impl = "ok " + (_canon_real(m.tags) if m.tags is not None else "none")
+        ctx.case(key=("mp4reader", i, len(data)), nontrivial=True, modelled=True, sample=case if i == 3 else None)
+        for lab in case["children"]:
+            ctx.hist["mp4reader:" + lab.split(":")[0]] += 1
+        ctx.hist["mp4reader:outcome:" + impl.split(" ")[0] + ("" if k != "ok" else (":failed" if "failed=-" not in impl else ":clean"))] += 1
+        reqs.append(("mp4 op=readtags data=%s" % hx(data), impl, case))
+    if ctx.model_ok() and reqs:
+        answers = ctx.driver.ask([r[0] for r in reqs])
+        for (line, impl, case), ans in zip(reqs, answers):
+            if ans.startswith("bad-op"):
+                ctx.hist["model:not-wired"] += 1
+                continue
+            ctx.traces_validated += 1
+            if _canon_model(ans + " ").strip() != impl:
+                ctx.disagree("mp4 ilst reader", case, model=ans[:300], impl=impl[:300])
+    return len(reqs)
